@@ -124,6 +124,17 @@ func (h *c02hist) checkGet(k int) {
 		h.fail("Get(%d) made %d comparisons, more than floor(bound)+1 = %d (beta=%d, P=%d)", k, h.ncmp, lim, h.beta, h.P)
 	}
 	h.c.Max("max:get_comparisons", int64(h.ncmp))
+	// the other way to look a key up: Cursor(k)
+	h.ncmp = 0
+	cu := h.t.Cursor(Elem{Key: k})
+	if cu.Valid() != h.keys[k] {
+		h.fail("Cursor(%d) valid=%v, key present=%v", k, cu.Valid(), h.keys[k])
+		return
+	}
+	if h.ncmp > lim {
+		h.fail("Cursor(%d) made %d comparisons, more than floor(bound)+1 = %d (beta=%d, P=%d)", k, h.ncmp, lim, h.beta, h.P)
+	}
+	h.c.Max("max:cursor_lookup_comparisons", int64(h.ncmp))
 }
 
 func (h *c02hist) afterOp(op byte, k int) {
